@@ -42,8 +42,6 @@ def cex_search(pid, seed):
     out = r.stdout
     if r.returncode == 1 and "FAILING HISTORY" in out:
         return out[out.index("FAILING HISTORY"):]
-    if r.returncode not in (0, 1, 124) and "aborted with status" in out:
-        return out[-1500:]
     return None
 
 
